@@ -64,7 +64,7 @@ type proxy struct {
 	requestIDs    chan string
 	randGenerator *rand.Rand
 
-	// protects the map below
+	// protects randGenerator above and the map below
 	sync.Mutex
 	requests map[string]*pendingRequest
 }
@@ -185,7 +185,12 @@ func (p *proxy) handleAgentRequest(w http.ResponseWriter, r *http.Request, backe
 }
 
 func (p *proxy) newID() string {
-	sum := sha256.Sum256([]byte(fmt.Sprintf("%d", p.randGenerator.Int63())))
+	// rand.Rand is not safe for concurrent use, and newID is called
+	// concurrently from ServeHTTP, so the draw must be serialized.
+	p.Lock()
+	n := p.randGenerator.Int63()
+	p.Unlock()
+	sum := sha256.Sum256([]byte(fmt.Sprintf("%d", n)))
 	return fmt.Sprintf("%x", sum)
 }
 
